@@ -125,7 +125,7 @@ pub fn check(tier: Tier) -> Check {
             Stream::new("mixed-bootstrap", tier.pick(100, 1000), c15::scenario_pub),
         ],
         require: vec![
-            ("datagrams_size_checked", tier.pick(200_000, 3_000_000)),
+            ("datagrams_size_checked", tier.pick(80_000, 1_500_000)),
             ("replies_measured", tier.pick(5_000, 200_000)),
         ],
         exhaustive: false,
